@@ -253,17 +253,28 @@ class Ctx:
         log("%s: recorded %d events in %.1fs" % (name, n, time.time() - t))
         return outp
 
-    def validate(self, name, module_rel, cfg_rel, tracef, family, shards=1, timeout=1800, heap="4g", constants=None):
+    def validate(self, name, module_rel, cfg_rel, tracef, family, shards=1, timeout=1800, heap="4g", constants=None, cut=None):
         """Trace validation: TLC steps through the recorded events; the trace specification
         prints one line VERDICT <json list of failing event indices>; every event must be consumed."""
         lines = [l for l in open(tracef, encoding="utf-8").read().split("\n") if l]   # not splitlines(): U+2028/U+0085 occur in texts
         n = len(lines)
         shards = max(1, min(shards, n))
         per = (n + shards - 1) // shards
+        # shard boundaries; with cut="<ev>" a shard may only begin at an event of that kind (traces whose
+        # specification carries state from one event to the next, e.g. the locals of a program)
+        starts = [0]
+        for si in range(1, shards):
+            b = max(si * per, starts[-1] + 1)
+            if cut:
+                while b < n and ('"ev":"%s"' % cut) not in lines[b]:
+                    b += 1
+            if b < n and b > starts[-1]:
+                starts.append(b)
+        ends = starts[1:] + [n]
         procs = []
         t = time.time()
-        for si in range(shards):
-            chunk = lines[si * per:(si + 1) * per]
+        for si in range(len(starts)):
+            chunk = lines[starts[si]:ends[si]]
             if not chunk:
                 continue
             d, mod, cfg = self._prep("%s-%d" % (name, si), module_rel, cfg_rel, constants)
@@ -287,7 +298,7 @@ class Ctx:
             mp = re.search(r"TRACE-PINNED (\d+)", out)
             pinned += int(mp.group(1)) if mp else cnt
             for i in idx:
-                bad.append(si * per + i - 1)   # TLC indices are 1-based
+                bad.append(starts[si] + i - 1)   # TLC indices are 1-based
         self.validated += n
         self.nontrivial += pinned
         for i in bad:
